@@ -30,6 +30,28 @@ def texts_for(rng, cfg, k):
     return out
 
 
+def failing_module(rng, og):
+    """a module whose dump is refused part-way: an unencodable value inside 1..3 nested blocks, after some items"""
+    inner = og.items(3, rng.randrange(0, 3)) + [("bad", rng.choice([1j, object(), b"bytes", "both ' and \" quotes"]))]
+    for _ in range(rng.randrange(1, 4)):
+        cls = rng.choice([io.PVLGroup, io.PVLObject])
+        inner = og.items(3, rng.randrange(0, 2)) + [(og.g.ident(), cls(inner))]
+    return io.PVLModule(inner)
+
+
+def probe_module(rng, width):
+    """items whose rendering is sensitive to any threshold that could drift: strings of every length around
+    width/2 and width, as values, in a sequence, before and inside a block"""
+    ch = rng.choice(["X", "x_", "A1"])
+    lens = list(range(max(1, width // 2 - 6), width // 2 + 4)) + [max(1, width - 12), width]
+    strs = [(ch * n)[:n] for n in lens]
+    items = [("S%d" % n, v) for n, v in zip(lens, strs)]
+    items.append(("SEQ", strs[4:9]))
+    items.append(("G", io.PVLGroup([("T%d" % n, v) for n, v in zip(lens, strs)])))
+    items += [("U%d" % n, v) for n, v in zip(lens, strs)]
+    return io.PVLModule(items)
+
+
 def run(ctx):
     lean = core.standard_lean_phase(ctx, PROP_MODULES)
     drv = core.Driver()
@@ -72,9 +94,14 @@ def run(ctx):
         og = gen.ObjGen(rng, enc)
         cfg = og.cfg()
         inst = encio.make_encoder(enc, cfg)
-        for i in range(rng.randrange(2, 6)):
-            m = og.module()
-            m2 = io.j_to_py(io.py_to_j(m))
+        weff = encio.effective_cfg(enc, cfg)["width"]
+        for i in range(rng.randrange(2, 7)):
+            k = rng.random()
+            m = og.module() if k < 0.5 else failing_module(rng, og) if k < 0.75 else probe_module(rng, min(weff, 200))
+            try:
+                m2 = io.j_to_py(io.py_to_j(m))
+            except ValueError:          # holds a value outside the PVL data model (failing_module)
+                m2 = copy.deepcopy(m)
             def dump(e, mod):
                 try:
                     return ("ok", e.encode(mod))
